@@ -1,0 +1,102 @@
+//! Verification hooks, compiled only with `--cfg kahflane_turdb_verif` (additive; nothing
+//! here is reachable in a normal build).
+//!
+//! H1: crash points and sync shadowing. The harness arms the hooks in a child process:
+//! every `point(kind)` call is numbered (and optionally logged); at the chosen number the
+//! process ends with `_exit(77)`, i.e. like a kill: nothing buffered in user space reaches
+//! the files, everything already written to a file or to a shared mapping stays in the OS.
+//! `synced(file)` runs after each successful sync/msync and copies the file's current bytes
+//! into a shadow directory, which is what a power loss would have left of that file.
+//!
+//! H3: `force_degraded_open()` makes `Database::open` take the degraded (read-only, WAL
+//! not replayed) branch so that the `PRAGMA recover_wal` path can be exercised on small
+//! crashed directories.
+
+use std::fs::File;
+use std::io::Write;
+use std::path::PathBuf;
+use std::sync::atomic::{AtomicBool, AtomicU64, Ordering};
+use std::sync::Mutex;
+
+static COUNTER: AtomicU64 = AtomicU64::new(0);
+static CRASH_AT: AtomicU64 = AtomicU64::new(0);
+static ACTIVE: AtomicBool = AtomicBool::new(false);
+static DEGRADED: AtomicBool = AtomicBool::new(false);
+static SHADOW: Mutex<Option<(PathBuf, PathBuf)>> = Mutex::new(None);
+static LOG: Mutex<Option<File>> = Mutex::new(None);
+
+/// Arm the hooks. `crash_at` = 0: count (and log) only.
+pub fn arm(crash_at: u64, db_root: Option<PathBuf>, shadow_dir: Option<PathBuf>, point_log: Option<PathBuf>) {
+    COUNTER.store(0, Ordering::SeqCst);
+    CRASH_AT.store(crash_at, Ordering::SeqCst);
+    if let (Some(root), Some(shadow)) = (db_root, shadow_dir) {
+        let _ = std::fs::create_dir_all(&shadow);
+        *SHADOW.lock().unwrap() = Some((root, shadow));
+    }
+    if let Some(p) = point_log {
+        *LOG.lock().unwrap() = File::create(p).ok();
+    }
+    ACTIVE.store(true, Ordering::SeqCst);
+}
+
+pub fn disarm() {
+    ACTIVE.store(false, Ordering::SeqCst);
+}
+
+pub fn points_so_far() -> u64 {
+    COUNTER.load(Ordering::SeqCst)
+}
+
+/// A numbered crash point, placed immediately *before* the operation named by `kind`.
+#[inline]
+pub fn point(kind: &'static str) {
+    if !ACTIVE.load(Ordering::Relaxed) {
+        return;
+    }
+    let n = COUNTER.fetch_add(1, Ordering::SeqCst) + 1;
+    if let Ok(mut g) = LOG.lock() {
+        if let Some(f) = g.as_mut() {
+            let _ = writeln!(f, "{} {}", n, kind);
+        }
+    }
+    if n == CRASH_AT.load(Ordering::Relaxed) {
+        if let Ok(mut g) = LOG.lock() {
+            if let Some(f) = g.as_mut() {
+                let _ = f.flush();
+            }
+        }
+        // like a kill: no destructors, no flushing of user-space buffers
+        unsafe { libc::_exit(77) }
+    }
+}
+
+/// Called after a successful sync of `file`: its current content is what survives a power loss.
+pub fn synced(file: &File) {
+    if !ACTIVE.load(Ordering::Relaxed) {
+        return;
+    }
+    let guard = SHADOW.lock().unwrap();
+    let Some((root, shadow)) = guard.as_ref() else { return };
+    #[cfg(unix)]
+    {
+        use std::os::unix::io::AsRawFd;
+        let link = format!("/proc/self/fd/{}", file.as_raw_fd());
+        if let Ok(path) = std::fs::read_link(link) {
+            if let Ok(rel) = path.strip_prefix(root) {
+                let dst = shadow.join(rel);
+                if let Some(parent) = dst.parent() {
+                    let _ = std::fs::create_dir_all(parent);
+                }
+                let _ = std::fs::copy(&path, &dst);
+            }
+        }
+    }
+}
+
+pub fn force_degraded_open(on: bool) {
+    DEGRADED.store(on, Ordering::SeqCst);
+}
+
+pub fn degraded_open_forced() -> bool {
+    DEGRADED.load(Ordering::SeqCst)
+}
